@@ -233,6 +233,8 @@ pub struct Walker {
     funcs: HashMap<[u32; 2], usize>,
     pub heap_objects: Vec<Object>,
     seen_heap: HashMap<usize, ()>,
+    /// the value a run handed to its caller: released the way a caller releases it, with Object::free_recursive
+    pub root: Option<Object>,
 }
 
 impl Walker {
@@ -242,6 +244,7 @@ impl Walker {
             funcs: HashMap::new(),
             heap_objects: Vec::new(),
             seen_heap: HashMap::new(),
+            root: None,
         }
     }
     fn note_heap(&mut self, addr: usize, o: Object) {
@@ -435,7 +438,10 @@ pub fn case_begin(budget: u64) {
 
 fn classify_result(r: Result<Object, Error>, w: &mut Walker) -> Outcome {
     match r {
-        Ok(o) => match catch_unwind(AssertUnwindSafe(|| w.walk(o))) {
+        Ok(o) => match catch_unwind(AssertUnwindSafe(|| {
+            w.root = Some(o);
+            w.walk(o)
+        })) {
             Ok(v) => Outcome::Value(v),
             Err(p) => match classify_unwind(p) {
                 Outcome::Trap(m) => Outcome::Trap(format!("in result graph: {m}")),
@@ -458,14 +464,24 @@ pub fn case_end(outcome: Outcome, walker: Walker, ticks: u64) -> Obs {
     heap.cycles_nontrivial = stats.nontrivial;
     heap.freed_by_cycles = stats.freed;
     heap.allocated = verif::heap_total();
-    // release the result graph: the caller's half of C04
-    let mut released: HashMap<usize, ()> = HashMap::new();
+    // release the result graph: the caller's half of C04. The caller has one way to do that, Object::free_recursive, so
+    // that is what is used (a result of which parts are already dead is not touched: that is reported as such)
     for o in &walker.heap_objects {
-        if verif::heap_is_live(*o) == Some(true) {
-            released.insert(obj_addr(*o), ());
-            let _ = catch_unwind(AssertUnwindSafe(|| o.free()));
-        } else {
+        if verif::heap_is_live(*o) != Some(true) {
             heap.dead_in_result += 1;
+        }
+    }
+    if heap.dead_in_result == 0 {
+        match walker.root {
+            Some(root) => {
+                let _ = catch_unwind(AssertUnwindSafe(|| root.free_recursive()));
+            }
+            None => {
+                // (no single root: objects collected by hand, released one by one)
+                for o in &walker.heap_objects {
+                    let _ = catch_unwind(AssertUnwindSafe(|| o.free()));
+                }
+            }
         }
     }
     // F-GC2 accounting: what the collector still managed when it was destroyed is
@@ -524,6 +540,7 @@ pub fn run_eval_shallow(src: &str, budget: u64) -> Obs {
     let mut w = Walker::new();
     let outcome = match r {
         Ok(Ok(o)) => {
+            w.root = Some(o);
             let mut seen: HashMap<usize, ()> = HashMap::new();
             let mut work = vec![o];
             while let Some(x) = work.pop() {
